@@ -99,6 +99,8 @@ class ModInfo:
             return self.consts[name]
         if name in BUILTIN_NAMES:
             return V.BuiltinRef(name)
+        if name == "__name__":
+            return self.modname
         raise Unsupported(f"unresolved global name {name!r}", node)
 
     def exc_name(self, node, env):
